@@ -2,7 +2,7 @@
    input, what the implementation did (error | field dump + re-encoding); [c18_ok] recomputes
    the same observation from the model and compares (evaluated with vm_compute). *)
 From Coq Require Uint63.
-From DtlsV Require Import Lib.Bytes Gen.Generated Codec.C18Comb Codec.C18Rec Codec.C18Hs Codec.C18Rec13 Codec.C18Ext Codec.C18Kx Codec.C18Hello.
+From DtlsV Require Import Lib.Bytes Gen.Generated Codec.C18Comb Codec.C18Rec Codec.C18Hs Codec.C18Rec13 Codec.C18Ext Codec.C18Kx Codec.C18Hello Codec.C18Envelope.
 Open Scope N_scope.
 
 (* Byte strings are written by the driver as (length, 7-byte big-endian chunks as primitive
@@ -154,6 +154,28 @@ Definition dump_sh (x : sh_fixed * list extv) : list N :=
   let '((v, (r, (sid, (suite, cm)))), exts) := x in
   dump_pair v ++ dump_random r ++ dump_bytes sid ++ [suite; cm] ++ dump_exts exts.
 
+Definition dump_nst (x : nst) : list N :=
+  let '((lt, (aa, (nonce, tk))), exts) := x in [lt; aa] ++ dump_bytes nonce ++ dump_bytes tk ++ dump_exts exts.
+Definition dump_ske (x : ske) : list N :=
+  let '(hint, (ct, (cv, (pk, (h, (s, sg)))))) := x in
+  dump_obytes hint ++ [ct; cv] ++ dump_bytes pk ++ [h; s] ++ dump_bytes sg.
+Definition dump_cr (x : certreq) : list N :=
+  let '(tys, (sigs, cas)) := x in
+  dump_list dump_one tys ++ dump_list dump_pair sigs ++ dump_list dump_bytes cas.
+
+(* the full envelope (C18Envelope.v): header, message tag, fields - as DumpMessage2 prints them *)
+Definition dump_msgx (m : hsmsgx) : list N :=
+  match m with
+  | XBase m => dump_msg m
+  | XClientHello x => dump_ch x
+  | XServerHello x => dump_sh x
+  | XNewSessionTicket x => dump_nst x
+  | XEncryptedExtensions x => dump_exts x
+  | XServerKeyExchange x => dump_ske x
+  | XCertificateRequest x => dump_cr x
+  end.
+Definition dump_hsx (x : hsx) : list N := dump_hshdr (fst x) ++ [msgx_type (snd x)] ++ dump_msgx (snd x).
+
 (* None: the input is outside what the model covers (skipped and counted by the driver) *)
 Definition run (id : N) (ctx : list N) (b : bytes) : option obs :=
   match id with
@@ -195,6 +217,7 @@ Definition run (id : N) (ctx : list N) (b : bytes) : option obs :=
   | 104 => Some (run_w w_certreq
                    (fun x => let '(tys, (sigs, cas)) := x in
                              dump_list dump_one tys ++ dump_list dump_pair sigs ++ dump_list dump_bytes cas) b)
+  | 109 => Some (run_w (w_hsx (ctxn ctx 0)) dump_hsx b)
   | 119 => Some (run_w w_ext_list (dump_list (fun x => fst x :: dump_bytes (snd x))) b)
   | 120 => Some (run_w w_connection_id dump_bytes b)
   | 121 => Some (run_w w_sni dump_bytes b)
